@@ -878,6 +878,7 @@ func runConc(prop, tier string, r *rng) {
 		}
 	}
 	if prop == "C12" {
+		slowLookupCase(prop)
 		for _, b := range []int{1, 2, 64} {
 			gatedCase(prop, 9, 5, b) // not contiguous with Head
 			gatedCase(prop, 6, 5, b) // contiguous
@@ -1009,4 +1010,73 @@ func emptyWaitCase(prop string, wipe bool, target uint64, batch int) {
 	_ = st.Sync(ctx)
 	out := <-res
 	emit("%s kind=gated flavour=plain where=%s target=%d head=0 batch=%d => result=%s wipe=%s", prop, map[bool]string{true: "parked-then-wiped", false: "empty-store"}[wipe], target, batch, out, del)
+}
+
+// slowLookupCase: readers B and C are parked on two future heights; reader A asks for a third future height and its
+// SECOND datastore lookup (the re-check made once it is registered) is stuck in the datastore. B's context is cancelled:
+// B returns; C's header is appended (not adjacent to the head): C returns it. Neither depends on A's lookup.
+func slowLookupCase(prop string) {
+	ctx := context.Background()
+	chain := vhdr.Chain("A", 12, time.Now().Add(-time.Hour).UnixNano(), 1e9, 0)
+	core := memds.NewCore()
+	st, err := store.NewStore[*vhdr.Header](&memds.Plain{C: core}, store.WithWriteBatchSize(4))
+	if err != nil {
+		panic(err)
+	}
+	if err := func() error { sc, end := startCtx(); defer end(); return st.Start(sc) }(); err != nil {
+		panic(err)
+	}
+	defer bounded(func() { st.Stop(ctx) }) //nolint:errcheck
+	_ = st.Append(ctx, chain[:3]...)
+	_ = st.Sync(ctx)
+	read := func(c context.Context, h uint64, out chan string) {
+		hd, err := st.GetByHeight(c, h)
+		switch {
+		case err == nil && hd.H == h:
+			out <- "found"
+		case errors.Is(err, context.Canceled), errors.Is(err, context.DeadlineExceeded):
+			out <- "cancelled"
+		default:
+			out <- "err"
+		}
+	}
+	ctxB, cancelB := context.WithCancel(ctx)
+	resB, resC, resA := make(chan string, 1), make(chan string, 1), make(chan string, 1)
+	go read(ctxB, 6, resB)
+	ctxC, cancelC := context.WithTimeout(ctx, 6*time.Second)
+	defer cancelC()
+	go read(ctxC, 7, resC)
+	time.Sleep(100 * time.Millisecond) // B and C are parked
+	parked, release := make(chan struct{}), make(chan struct{})
+	var n atomic.Int32
+	var once sync.Once
+	core.GetGate = func(k string) {
+		if k == "/headers/10" && n.Add(1) == 2 {
+			once.Do(func() { close(parked); <-release })
+		}
+	}
+	ctxA, cancelA := context.WithTimeout(ctx, 5*time.Second)
+	defer cancelA()
+	go read(ctxA, 10, resA)
+	pa := "yes"
+	select {
+	case <-parked:
+	case <-time.After(2 * time.Second):
+		pa = "no"
+	}
+	within := func(ch chan string) string {
+		select {
+		case r := <-ch:
+			return r
+		case <-time.After(1500 * time.Millisecond):
+			return "stuck"
+		}
+	}
+	cancelB()
+	b := within(resB)
+	_ = st.Append(ctx, chain[6])
+	c := within(resC)
+	close(release)
+	core.GetGate = nil
+	emit("%s kind=slowlookup => parkedA=%s b=%s c=%s", prop, pa, b, c)
 }
